@@ -1,7 +1,7 @@
 (* C14 phase 2: agreement of the two reader models on modules without blackbox instances (part D2) *)
 From stdpp Require Import strings gmap sets pretty.
-From CG Require Import Model.FastVerilog Proofs.FastVerilogProofs Proofs.ApiProofs Gen.Gen_fastv.
-From CG Require Import Proofs.FvA1 Proofs.FvA2 Proofs.FvA3 Proofs.FvA4 Proofs.FvA5 Proofs.FvA6 Proofs.FvA7 Proofs.FvA8 Proofs.FvA9 Proofs.FvA10 Proofs.FvB1 Proofs.FvB2 Proofs.FvB3 Proofs.FvB4 Proofs.FvB5 Proofs.FvC1 Proofs.FvC2 Proofs.FvD1.
+From CG Require Import Model.FastVerilog Proofs.FastVerilogProofs Gen.Gen_fastv.
+From CG Require Import Proofs.FvA0 Proofs.FvA1 Proofs.FvA2 Proofs.FvA3 Proofs.FvA4 Proofs.FvA5 Proofs.FvA6 Proofs.FvA7 Proofs.FvA8 Proofs.FvA9 Proofs.FvA10 Proofs.FvB1 Proofs.FvB2 Proofs.FvB3 Proofs.FvB4 Proofs.FvB5 Proofs.FvC1 Proofs.FvC2 Proofs.FvD1.
 Open Scope string_scope.
 
 (* ---- the statements with symbolic constants: what both readers build, before a name is chosen for the constant nodes *)
